@@ -113,6 +113,7 @@ func runScenario(c *core.Ctx, sc scenario, seed int64) ([]any, error) {
 	r.StartSampler(300 * time.Microsecond)
 	stop := make(chan struct{})
 	var wg sync.WaitGroup
+	var reopenGate sync.RWMutex
 	if sc.Readers {
 		wg.Add(1)
 		go func() {
@@ -123,11 +124,13 @@ func runScenario(c *core.Ctx, sc scenario, seed int64) ([]any, error) {
 					return
 				default:
 				}
+				reopenGate.RLock() // no reader is opened or closed while the index is being reopened
 				id, err := r.OpenReader()
 				if err == nil {
 					time.Sleep(time.Duration(rng.Intn(4000)) * time.Microsecond)
 					r.CloseReader(id)
 				}
+				reopenGate.RUnlock()
 				time.Sleep(time.Duration(rng.Intn(1500)) * time.Microsecond)
 			}
 		}()
@@ -201,7 +204,10 @@ func runScenario(c *core.Ctx, sc scenario, seed int64) ([]any, error) {
 		if werr == nil {
 			r.Quiesce(20 * time.Second)
 			r.StopSampler()
-			if err := r.Reopen(); err != nil {
+			reopenGate.Lock()
+			err := r.Reopen()
+			reopenGate.Unlock()
+			if err != nil {
 				return nil, fmt.Errorf("%s: reopen: %v", sc.Name, err)
 			}
 			r.StartSampler(300 * time.Microsecond)
@@ -304,7 +310,7 @@ func run(c *core.Ctx) error {
 	if c.Thorough() {
 		// async release of epochs (2.1M states), the larger bounds (1.0M) and the in-memory
 		// merge of the persister with unsafe batches (1.6M): about 2 minutes each on 8 workers
-		cfgs = append(cfgs, "ScorchDisk_mc_copy.cfg", "ScorchDisk_mc_disk_thorough.cfg", "ScorchDisk_mc_disk_thorough_big.cfg", "ScorchDisk_mc_memmerge_thorough.cfg")
+		cfgs = append(cfgs, "ScorchDisk_mc_copy.cfg", "ScorchDisk_mc_disk_thorough.cfg", "ScorchDisk_mc_disk_thorough_big.cfg", "ScorchDisk_mc_memmerge_thorough.cfg", "ScorchDisk_mc_restart_thorough.cfg")
 	}
 	for _, cfg := range cfgs {
 		if _, ok := c.ModelCheck("ScorchDisk", cfg, core.Workers(8), core.Timeout(25*time.Minute), core.Heap(8000)); !ok {
